@@ -328,6 +328,8 @@ func (s *Server) RunControlSession(conn net.Conn) {
 				if writeToConnWithLog(conn, s.nc, writeMsg, writeControlServiceError) {
 					return
 				}
+
+				continue
 			}
 		} else {
 			tokens := strings.SplitN(string(cmdBytes), " ", 2)
